@@ -164,15 +164,16 @@ Proof. exact processed_sound. Qed.
 
 (* C08 (e2e_pn).  The judge runs pn_monitor over the event log ... *)
 Theorem E2E_pn_judge_parts : forall case out, e2e_pn_judge case out = true ->
-  exists rws, take_rows 8 (nz out 6) (skipn 7 out) = Some (rws, []) /\
-    pn_monitor (nz out 3) (nz out 4) (map mk_xrow rws) = true.
+  exists rws, take_rows 8 (nz out 6) (skipn 8 out) = Some (rws, []) /\
+    pn_monitor (nz out 3) (nz out 4) (nz out 7) (map mk_xrow rws) = true.
 Proof. exact pn_judge_parts. Qed.
 
-Theorem E2E_pn_monitor_parts : forall endt mad l, pn_monitor endt mad l = true ->
+(* each endpoint is held to the max_ack_delay it advertised itself: mad0 client, mad1 server *)
+Theorem E2E_pn_monitor_parts : forall endt mad0 mad1 l, pn_monitor endt mad0 mad1 l = true ->
   (forall ep sp, (ep = 0 \/ ep = 1) -> (sp = 0 \/ sp = 1 \/ sp = 2) ->
      incr1 ep sp (-1) l = true /\ ack1 ep sp [] l = true) /\
-  ackt 0 (mad + ACK_SLACK_US) endt [] (-1) l = true /\
-  ackt 1 (mad + ACK_SLACK_US) endt [] (-1) l = true.
+  ackt 0 (mad0 + ACK_SLACK_US) endt [] (-1) l = true /\
+  ackt 1 (mad1 + ACK_SLACK_US) endt [] (-1) l = true.
 Proof. exact pn_monitor_parts. Qed.
 
 (* packet numbers built for sending by one endpoint in one space strictly increase (also across a Retry) *)
